@@ -326,6 +326,7 @@ func (r *Run) entryLocks(fn *Func) lockset {
 			funcs := append(append([]*Func{}, r.P.All...), r.P.Ext...)
 			for _, caller := range funcs {
 				for pi, path := range r.Paths(caller) {
+					r.at(&path)
 					var held []lockset
 					for i, ev := range path.Events {
 						if ev.Kind != EvCall || ev.Call == nil {
@@ -398,6 +399,7 @@ func (r *Run) allAccesses() []fieldAccess {
 		seen := map[string]bool{}
 		for pi := range paths {
 			path := &paths[pi]
+			r.at(path)
 			for _, ev := range path.Events {
 				if ev.Kind == EvEnter && ev.Lit != nil {
 					inlined[ev.Lit] = true
@@ -526,7 +528,7 @@ func ruleGuardedBy(r *Run) {
 			// common exclusive lock) are checked here; the rest is confined to the connection's goroutines
 			var ws []fieldAccess
 			for _, a := range byField[k] {
-				if a.Write && !a.Fresh && !isConstructorLike(a.Fn) {
+				if a.Write && !a.Fresh && !isConstructorLike(a.Fn) && !isConstructorLike(a.In) {
 					ws = append(ws, a)
 				}
 			}
@@ -546,7 +548,7 @@ func ruleGuardedBy(r *Run) {
 		as := byField[k]
 		var writes, reads []fieldAccess
 		for _, a := range as {
-			if a.Fresh || isConstructorLike(a.Fn) {
+			if a.Fresh || isConstructorLike(a.Fn) || isConstructorLike(a.In) {
 				continue
 			}
 			if a.Write {
@@ -635,6 +637,7 @@ func (r *Run) checkPublishedOnce(name, why string, writes []fieldAccess) {
 		fn := w.In
 		// find the assignment event and look at the path prefix
 		for _, path := range r.Paths(fn.root()) {
+			r.at(&path)
 			for i, ev := range path.Events {
 				if ev.Kind != EvAssign || !(ev.Node.Pos() <= w.Pos && w.Pos < ev.Node.End()) {
 					continue
@@ -777,6 +780,7 @@ func (r *Run) acquires(fn *Func, memo map[*Func]map[string]string, stack map[*Fu
 	defer delete(stack, fn)
 	d := r.Deep()
 	for _, path := range r.Paths(fn) {
+		r.at(&path)
 		for _, ev := range path.Events {
 			if ev.Kind == EvDefer {
 				continue
@@ -826,6 +830,7 @@ func ruleLockOrder(r *Run) {
 		r.Analysed(fn, len(paths))
 		for pi := range paths {
 			path := &paths[pi]
+			r.at(path)
 			held := r.locksAlong(path, lockset{})
 			for i, ev := range path.Events {
 				if ev.Kind == EvDefer {
@@ -933,6 +938,7 @@ func ruleLockPairing(r *Run) {
 		r.Analysed(fn, len(paths))
 		for pi := range paths {
 			path := &paths[pi]
+			r.at(path)
 			if hasCut(path) {
 				continue // the iteration continues; releases are checked on the complete paths
 			}
@@ -1005,6 +1011,7 @@ func ruleSplitCriticalSection(r *Run) {
 		paths := r.Paths(fn)
 		for pi := range paths {
 			path := &paths[pi]
+			r.at(path)
 			held := r.locksAlong(path, lockset{})
 			type acc struct {
 				idx   int
@@ -1073,6 +1080,7 @@ func ruleDeferUnlock(r *Run) {
 	sort.Slice(fns, func(i, j int) bool { return fns[i].Name < fns[j].Name })
 	for _, fn := range fns {
 		for pi, path := range r.Paths(fn) {
+			r.at(&path)
 			_ = pi
 			open := map[string]int{} // lock key -> index of the Lock event (explicitly released later)
 			deferred := map[string]bool{}
